@@ -11,6 +11,11 @@ CHECKS = {
          "DESIGN.md §4 C01",
          "Every (mnemonic x syntactic form x operand boundary class x radix x case), the branch distance sweep -140..140 x 3 shapes x 2 directions x 6 anchors, and every ordered pair of 170 statement forms x 4 separators are executed on the real parser+codegen; exhaustive for that finite space, which contains every shortcut visible in the code (255/256, -128/127, target $0000, optional operands).",
          "Operand values are boundary classes plus seed-chosen representatives; ISA model generated from the opcode bit structure is trusted; values above 65535 / negative values are outside the statement."),
+ "C05": ("exploration",
+         "bounded-exhaustive input enumeration (all single-character edits of a production-covering corpus, all short token strings, all line splices) with a round-trip oracle on the real parser",
+         "DESIGN.md §4 C05",
+         "Every single-character deletion/insertion/replacement (104 characters) of a corpus holding one rendering of every grammar production and of the example sources, all token strings up to length 4 (quick) / 5 (thorough) over 26 tokens, and all prefix+suffix splices of the examples are parsed by the real parser; whenever no diagnostic is reported the re-rendered tokens must equal the input (modulo letter case and CRLF). Exhaustive for that space, which contains the stray `)` / lone CR / control / non-ASCII cases the end-of-file rule mishandled.",
+         "Not all byte strings: single edits of a fixed corpus and short token strings (small-scope hypothesis). Comparison modulo Unicode letter case and CRLF on both sides."),
 }
 
 NOT_YET = {
